@@ -31,8 +31,8 @@ RULE = ('Hypothesis rule-based state machine. Every history starts from a '
         'DELETE/rename of a standard name is 400; every row added by an API '
         'request has a name matching CUSTOM_[A-Z0-9_]+ in full, <= 255 long; '
         'new class ids are >= 10000 and not present before; creating an '
-        'existing custom name is 204 (PUT) / 409 (POST); names are never '
-        'duplicated. Non-trivial = a creation after a deletion or after a '
+        'existing custom name is 204 (PUT) / 409 (POST), creating a new '
+        'well-formed one is 201; names are never duplicated. Non-trivial = a creation after a deletion or after a '
         'start-up over existing custom rows, a refused request on a standard '
         'name, a request with an ill-formed name, or a start-up that had rows '
         'to add; distinct = distinct history prefix.')
@@ -362,6 +362,16 @@ def c19_oracle(m, req, resp, before, after):
             unchanged(before, after, 'refused-rename-changed-state')
     elif op in ('put_class', 'post_class', 'put_trait'):
         table = before.traits if op == 'put_trait' else before.classes
+        if name not in table and VALID.match(name) and len(name) <= 255 \
+                and '/' not in name:
+            # a new well-formed custom name is created (API reference: 201)
+            # and gets an identifier of its own, whatever was created and
+            # deleted before
+            after_t = after.traits if op == 'put_trait' else after.classes
+            if resp.status != 201 or name not in after_t:
+                fail('valid-new-name-not-created',
+                     {'status': resp.status, 'name': name,
+                      'detail': (resp.detail() or '')[-200:]}, op_kind=op)
         if name in table:
             custom = bool(VALID.match(name))
             if op == 'post_class':
